@@ -195,6 +195,83 @@ func cmdOrder(args []string) {
 			nonTrivial[oi] = true
 		}
 	}
+	// (2b) sibling names: next to a dNSName of the certificate its own sub-domain (www.<name>) and its parent, in every order -
+	// names that share a registrable domain are where a rule that groups names by domain lets one name decide for another.
+	// Each extended list is a memo segment of its own.
+	sibSeg := len(h.objs)
+	siblings := 0
+	for oi, t := range objs {
+		if only != "" && only != "siblings:"+t.ID {
+			continue
+		}
+		fc := forged[t.ID]
+		if fc == nil || fc.FindExt(forge.OIDSAN) == nil {
+			continue
+		}
+		names := fc.NamesOfExt(forge.OIDSAN)
+		var dns *forge.Node
+		for _, n := range names {
+			if n.Tag() == forge.GNDNS && bytes.Count(n.Body(), []byte(".")) >= 1 && len(n.Body()) < 100 {
+				dns = n
+			}
+		}
+		onion := dns != nil && bytes.HasSuffix(dns.Body(), []byte(".onion"))
+		if dns == nil || len(names) > 3 || (!onion && only == "" && oi%5 != int(seed)%5) {
+			continue
+		}
+		ext := append([]*forge.Node{}, names...)
+		ext = append(ext, forge.GN(forge.GNDNS, append([]byte("www."), dns.Body()...)))
+		if labels := bytes.SplitN(dns.Body(), []byte("."), 2); len(labels) == 2 && bytes.Count(labels[1], []byte(".")) >= 1 {
+			ext = append(ext, forge.GN(forge.GNDNS, labels[1]))
+		}
+		for cnMode := 0; cnMode < 3; cnMode++ {
+			if cnMode >= 1 && !onion {
+				break // (onion certificates also with a common name that is no host name - the common name is judged last of all
+				// names - and, third, asserting the EV policy as well: the EV rules about onion names are stricter)
+			}
+			first := true
+			mkv := func(p []int) *Target {
+				v := fc.Clone()
+				if cnMode >= 1 {
+					forge.SetAttr(v.Subject(), "2.5.4.3", 0x0c, []byte("Example Service"))
+				}
+				if cnMode == 2 {
+					v.SetExt("2.5.29.32", forge.MakeExt(forge.OID(2, 5, 29, 32), false, forge.Cons(0x10, forge.Cons(0x10, forge.OID(2, 23, 140, 1, 1))).Bytes()))
+				}
+				var nn []*forge.Node
+				for _, i := range p {
+					nn = append(nn, ext[i].Clone())
+				}
+				for _, x := range v.Exts().Children {
+					if forge.ExtOID(x) == forge.OIDSAN {
+						forge.ExtValue(x).Content = forge.GeneralNames(nn...).Bytes()
+					}
+				}
+				return parseVariant(t, v)
+			}
+			id := make([]int, len(ext))
+			for k := range id {
+				id[k] = k
+			}
+			for _, p := range append([][]int{id}, permsOf(len(ext), rng, 2)...) {
+				vt := mkv(p)
+				if vt == nil {
+					continue
+				}
+				vt.ID = "siblings:" + t.ID
+				if first {
+					h.objs = append(h.objs, vt)
+					first = false
+				}
+				h.lintTarget(sibSeg, vt, 0, fmt.Sprintf("sibling-names%v", p), false)
+				siblings++
+			}
+			if !first {
+				sibSeg++
+			}
+		}
+	}
+	sanVariants += siblings
 	// (3) planted names: every unordered pair {X, Y} of the vocabulary, in both orders, on subscriber templates
 	var templates []int
 	for oi, t := range objs {
@@ -215,7 +292,7 @@ func cmdOrder(args []string) {
 		if tier == "thorough" {
 			pairs = 60000
 		}
-		seg := len(objs)
+		seg := len(h.objs)
 		base := objs[templates[0]]
 		fcb := forged[base.ID]
 		// dated after every effective date of the registry, so that no rule is silent only because the template is old - or, with
@@ -353,7 +430,9 @@ func cmdOrder(args []string) {
 				}
 			}
 			asc := append([]int{}, clean...)
-			sort.Slice(asc, func(a, b2 int) bool { return bytes.Compare(forge.Raw(vocab[asc[a]].raw).Body(), forge.Raw(vocab[asc[b2]].raw).Body()) < 0 })
+			sort.Slice(asc, func(a, b2 int) bool {
+				return bytes.Compare(forge.Raw(vocab[asc[a]].raw).Body(), forge.Raw(vocab[asc[b2]].raw).Body()) < 0
+			})
 			desc := make([]int, len(asc))
 			for k := range asc {
 				desc[len(asc)-1-k] = asc[k]
